@@ -9,6 +9,10 @@ binding: real UDSScanner.entry_point (real ECU, real DBHandler on a temp sqlite 
          setup/teardown/_db_finish_run_meta) on a scripted transport; rows read back with
          sqlite3; code->spec: every run validated by Trace_DbLog (TLC);
          spec->code: TLC-simulated design behaviours replayed, design rows compared (DRIFT).
+         Family `scanner-level`: the command is varied too (implicit logging chosen in the
+         constructor / in main() / never, --ecu-reset, --ping, --properties with an OEM ECU class
+         that reads a DID); the exchanges setup()/teardown() make themselves are exchanges of the
+         run like any other, and "implicit logging on/off" is what the COMMAND asked for.
 """
 
 from __future__ import annotations
@@ -139,6 +143,49 @@ def par_history(rnd: random.Random, specs: list[dict[str, Any]], scripts: dict[i
     return pre + [{"op": "par", "lanes": [lane() for _ in range(rnd.randint(2, 3))]}]
 
 
+# --------------------------------------------------------------------------- scanner-level family
+
+def scanner_level_files(thorough: bool, rd: dict[str, Any], ds: dict[str, Any],
+                        pos_rd: list[list[str]], pos_ds: list[list[str]]) -> list[list[dict[str, Any]]]:
+    """Commands (not only histories): where the scanner chooses its implicit logging (constructor off / constructor
+    on / only in main() or never) x --ecu-reset (none, answered, refused twice, refused then answered after the
+    session change) x properties (--no-properties, default ECU class, OEM class that reads a DID in setup AND
+    teardown) x --ping / --no-ping (answered at once, first pings unanswered) x what main() does (nothing, plain
+    exchanges, toggling off/on around exchanges, ending switched off, a session change first)."""
+    def r(ana: bool = False, script: list[list[str]] | None = None, label: str = "Pos") -> dict[str, Any]:
+        return req_step(rd, script if script is not None else pos_rd, ana=ana, label=label)
+
+    on, off = {"op": "toggle", "on": True}, {"op": "toggle", "on": False}
+    hists: list[list[dict[str, Any]]] = [
+        [r(ana=True), on, r(), off, r(ana=True), r(), on, r(script=[["T"]], label="Timeout")],
+        [r(), r(ana=True)],
+        [off, r(), on, req_step(ds, pos_ds, label="Pos"), r(), off],
+        [],
+    ]
+    resets: list[tuple[int | None, str]] = [(None, "ok"), (1, "ok"), (3, "neg_then_ok"), (1, "neg")]
+    files: list[list[dict[str, Any]]] = []
+    # --no-ping: the full cross (fast), the runs of one (constructor, reset) cell share one database file
+    for ctor in (None, False, True):
+        for lvl, beh in resets:
+            jobs = []
+            for props in ("off", "plain", "oem"):
+                for h in hists:
+                    jobs.append({"hist": h, "scan": {"ctor": ctor, "ping": False, "reset": lvl, "props": props,
+                                                     "ecu": {"reset": beh}}})
+            files.append(jobs)
+    # --ping (every ping waits 0.5 s of real time first): one run per file so that the pool spreads them
+    for ctor in (None, False, True):
+        for props in ("off", "plain", "oem"):
+            for lvl, beh in (resets if thorough else resets[:2]):
+                for h in (hists if thorough else (hists[0], hists[2])):
+                    files.append([{"hist": h, "scan": {"ctor": ctor, "ping": True, "reset": lvl, "props": props,
+                                                       "ecu": {"reset": beh}}}])
+        for silent in ((1, 2) if thorough else (1,)):
+            files.append([{"hist": hists[1], "scan": {"ctor": ctor, "ping": True, "reset": None, "props": "off",
+                                                      "ecu": {"silent_pings": silent}}}])
+    return files
+
+
 # --------------------------------------------------------------------------- TLC validation
 
 def validate(traces: list[dict[str, Any]], rep: Report | None = None) -> dict[int, tuple[str, int]]:
@@ -181,6 +228,12 @@ def signature(t: dict[str, Any], label: str, j: int) -> dict[str, Any]:
         m = t["meta"][j - 1]
         e = t["exch"][j - 1]
         sig["request"] = m["cls"]
+        if t["job"].get("scan") is not None:
+            sc = t["job"]["scan"]
+            sig["phase"] = m.get("phase", "main")   # setup / main / teardown exchange of the command
+            sig["implicit_logging_chosen"] = {None: "in main() or never", False: "constructor: off",
+                                              True: "constructor: on"}[sc.get("ctor")]
+            sig["properties"] = sc.get("props")
         sig["reply"] = reply_kind(t, j)
         sig["call"] = e["out"]
         sig["warned"] = m["warn"] is not None
@@ -312,7 +365,10 @@ def run(tier: str, seed: int) -> Report:
                 "negative, timeout, mismatch, malformed, connection error on read/empty/write, pending, busy+retry) "
                 "as histories of length 1; cancellation at EVERY await point k of a set of histories, plus 'raise' "
                 "and a late cancellation landing inside disconnect; seeded random histories (length <= 30) with "
-                "implicit toggles / ANALYZE tags / aborts; concurrent lanes; TLC-simulated design behaviours. "
+                "implicit toggles / ANALYZE tags / aborts; concurrent lanes; TLC-simulated design behaviours; "
+                "scanner-level: commands that choose implicit logging in the constructor / in main() / never x "
+                "--ecu-reset x --ping x properties (off / default / OEM class reading a DID), setup's and teardown's "
+                "own exchanges judged like main()'s. "
                 "distinct = distinct (history, abort point); non-trivial = anything but a single positive exchange")
     rep.assumptions = [
         "outcome classes of replies are coverage labels found by offering candidate bytes to the real parse_pdu; "
@@ -323,6 +379,10 @@ def run(tier: str, seed: int) -> Report:
         "ECU.retry_wait is shortened (back-off duration is irrelevant to C11); load_transport is stubbed in the "
         "harness process to return the scripted transport",
         "the tester-present worker is switched off; concurrency is exercised by concurrent caller tasks instead",
+        "'implicit logging switched off' is what the command asked for through UDSScanner.implicit_logging (the "
+        "documented switch, assigned in the constructor by `scan uds dump-seeds`), whenever it was assigned; in the "
+        "scanner-level family gallia.command.uds.load_ecu is stubbed to hand out an ECU subclass that notes the "
+        "calls of its public request() (and, for the OEM variant, reads DID 0xF190 in properties())",
         "a call in flight that is cut by the cancellation of the RUN / a call that never reached the wire / a handler "
         "that was never closed: statement silent ('no completed exchange is missing') -> every outcome accepted, "
         "counted as unspecified; a call cut by a timeout of its own caller while the run goes on (asyncio.wait_for, "
@@ -418,6 +478,9 @@ def run(tier: str, seed: int) -> Report:
              "writer-stalled")
     add_file([{"hist": [pos_step, req_step(good[rd], [["T"]], label="Timeout")] * (nstall // 4), "stall": True}],
              "writer-stalled")
+    # commands whose set-up / tear-down exchange something, with implicit logging chosen before / in / never in main()
+    for jobs in scanner_level_files(thorough, good[rd], good[ds], pick(rd, "Pos")[1], pick(ds, "Pos")[1]):
+        add_file(jobs, "scanner-level")
     probe = run_files([[{"hist": h}] for h in abort_hists])
     for h, p in zip(abort_hists, probe):
         for k in range(1, p["points"] + 1):
@@ -496,7 +559,8 @@ def run(tier: str, seed: int) -> Report:
                    "illegal_reply_without_receive_time": 0, "implicit_toggled_during_call": 0}
     seen_keys: set[str] = set()
     for i, t in enumerate(traces):
-        key = json.dumps([t["job"]["hist"], t["job"]["cancel_at"], t["job"]["late"]], sort_keys=True)
+        key = json.dumps([t["job"]["hist"], t["job"]["cancel_at"], t["job"]["late"], t["job"].get("scan")],
+                         sort_keys=True)
         if key not in seen_keys:
             seen_keys.add(key)
             ex = t["exch"]
@@ -519,6 +583,17 @@ def run(tier: str, seed: int) -> Report:
                          "n_rows": len(t["rows"]), "n_exchanges": len(t["exch"]), "warns": t["warns"][:3],
                          "closed": t["closed"], "aborts": t["aborts"]})
     rep.extra["unspecified"] = unspecified
+    sl: dict[str, int] = {}
+    for t in traces:
+        if t["origin"] != "scanner-level":
+            continue
+        for e, m in zip(t["exch"], t["meta"]):
+            k = f"{m.get('phase', 'main')}:{e['impl']}"
+            sl[k] = sl.get(k, 0) + (e["nw"] > 0)
+    rep.extra["scanner_level_exchanges_by_phase_and_implicit_logging"] = dict(sorted(sl.items()))
+    for k in ("setup:off", "setup:on", "teardown:off", "teardown:on", "main:off", "main:on"):
+        if not sl.get(k) and not rep.violations:
+            raise Machinery(f"scanner-level family is vacuous: no exchange on the wire for {k} ({sl})")
     rep.extra["origins"] = {o: origin.count(o) for o in sorted(set(origin))}
     rep.extra["rows_read_back"] = sum(len(t["rows"]) for t in traces)
     rep.extra["warnings_could_not_log"] = sum(len(t["warns"]) for t in traces)
@@ -579,11 +654,27 @@ def run(tier: str, seed: int) -> Report:
         muts = [x for x in muts if x[0] != "swap-rows"]
         for k, (_, m) in enumerate(muts):
             m["id"] = k
+    offb = next((t for i, t in enumerate(traces) if verdicts[i][0] == "ok" and t["origin"] == "scanner-level"
+                 and t["closed"] and t["exch"] and t["exch"][0]["impl"] == "off" and t["exch"][0]["nw"] > 0
+                 and t["exch"][0]["out"] == "ret" and t["meta"][0].get("phase") == "setup"), None)
+    if offb is None and not rep.violations:
+        raise Machinery("no accepted scanner-level run with a set-up exchange made while implicit logging was off")
+    if offb is not None:
+        m = json.loads(json.dumps({k: offb[k] for k in TRACE_KEYS}))
+        e0 = m["exch"][0]
+        m["rows"].insert(0, {"okDecode": True, "req": e0["req"], "hasResp": True, "resp": e0["replies"][-1],
+                             "hasExc": False, "st": e0["st"], "mode": "implicit", "send": 1, "hasRecv": True,
+                             "recv": 2})
+        m["id"] = len(muts)
+        muts.append(("row-for-setup-exchange-while-off", m))
     mv = validate([m for _, m in muts])
     acc = [n for (n, m) in muts if mv[m["id"]][0] == "ok"]
     if acc:
         raise Machinery(f"binding self-test: corrupted traces accepted: {acc}")
     rep.extra["binding_selftest"] = {n: mv[m["id"]][0] for n, m in muts}
+    if offb is not None and mv[muts[-1][1]["id"]][0] != "B3/recorded-while-implicit-off":
+        raise Machinery("binding self-test: a row for a set-up exchange made while implicit logging was off is not "
+                        f"reported as B3 but as {mv[muts[-1][1]['id']][0]}")
     return rep
 
 
@@ -599,7 +690,8 @@ def replay(path: str) -> int:
             print(f"replay: design-layer violation {v['clause']} (re-run the tier)")
             bad += 1
             continue
-        t = c11_drive.run_hist(job["hist"], job.get("cancel_at"), bool(job.get("late")))
+        t = c11_drive.run_file([{"hist": job["hist"], "cancel_at": job.get("cancel_at"),
+                                 "late": bool(job.get("late")), "scan": job.get("scan")}])[0]
         t["id"] = 0
         label, j = validate([t])[0]
         print(f"replay steps={len(job['hist'])} cancel_at={job.get('cancel_at')} rows={len(t['rows'])}/"
